@@ -438,7 +438,14 @@ func c19CheckCallIn(ps []c19Param, args []c19Arg, wrap int) (key, what string, o
 func c19NestedCheck(ps []c19Param, outerN, innerPos, innerN int) (key, what, outcome string) {
 	lit := func(n int) []string { return append([]string(nil), c19ArgLits[:n]...) }
 	pos := func(n int) []c19Arg { return make([]c19Arg, n) }
-	inner := "f(" + strings.Join(lit(innerN), ", ") + ")"
+	// the inner call spells its arguments in the reverse order of the literal table, so that no
+	// position of the inner call holds the value the outer call has there
+	n := len(c19ArgLits)
+	ilits, ivals := make([]string, n), make([]any, n)
+	for i := range c19ArgLits {
+		ilits[i], ivals[i] = c19ArgLits[n-1-i], c19ArgVals[n-1-i]
+	}
+	inner := "f(" + strings.Join(ilits[:innerN], ", ") + ")"
 	oargs := lit(outerN)
 	oargs[innerPos] = inner
 	nested := "f(" + strings.Join(oargs, ", ") + ")"
@@ -471,7 +478,7 @@ func c19NestedCheck(ps []c19Param, outerN, innerPos, innerN int) (key, what, out
 	ovals := append([]any(nil), c19ArgVals...)
 	ovals[innerPos] = int64(1) // what f returns
 	expO := c19ExpectWith(ps, obound, ovals)
-	expI := c19ExpectWith(ps, ibound, c19ArgVals)
+	expI := c19ExpectWith(ps, ibound, ivals)
 	var gotO, gotI []string
 	for _, e := range obs1 {
 		if strings.HasPrefix(e, "@2:") {
